@@ -251,6 +251,27 @@ def run(tier, seed):
             if rc != want:
                 rep.violation(f"C16/OVERLAPPING_VERSIONS/family/{'|'.join(fam)}", f"{len(fam)} definitions of one name tagged {fam}: exit status {rc}, expected {want} (some pair overlaps = {clash})",
                               {"versions": fam, "expected_status": want, "status": rc, "log": out[-600:], "input": open(p).read()})
+        # a type must FULFIL ALL version obligations of its user: for every version of the user's tag some version of the type's tag
+        # covers it (version algebra: covers = inclusion of build sets); otherwise the type does not exist for that version
+        cover_pairs = [("1.12", "1.12 2"), ("1 2", "1.12 2.4.3"), ("1.12", "1"), ("1.12 2", "1.12 2"), ("1", "1.12"), ("2.4.3 1.12", "1.12"), ("3", "1.12 2"), ("1.12 2", "1.12 2 3"), ("2 1.12 3.3.5", "3.3.5 2.4.3")]
+        for _ in range(2 if tier == "quick" else 30):
+            mk = lambda: " ".join(dict.fromkeys(rng.choice(pool) for _ in range(1 + rng.below(3))))
+            cover_pairs.append((mk(), mk()))
+        for T, U in cover_pairs if tier != "quick" else cover_pairs[:6] + cover_pairs[-2:]:
+            tv = [wowm.parse_world_version(x) for x in T.split()]
+            uv = [wowm.parse_world_version(x) for x in U.split()]
+            if any(wowm.world_overlaps(x, y) for i, x in enumerate(tv) for y in tv[i + 1:]) or any(wowm.world_overlaps(x, y) for i, x in enumerate(uv) for y in uv[i + 1:]):
+                continue          # a tag whose own versions overlap is a different rule (VERSION_TAGS_OVERLAP)
+            g.resync()
+            p = os.path.join(SCRATCH, "wow_message_parser/wowm/world/zz_verif_cover.wowm")
+            open(p, "w").write(f'enum VerifCoverProbe : u8 {{ A = 0; B = 1; }} {{ versions = "{T}"; }}\nstruct VerifCoverUser {{ VerifCoverProbe p; }} {{ versions = "{U}"; }}\n')
+            rc, out, _ = g.run(); runs += 1
+            fulfilled = all(any(wowm.world_covers(t, u) for t in tv) for u in uv)
+            want = 0 if fulfilled else codes.get("COMPLEX_NOT_FOUND")
+            results[("COMPLEX_NOT_FOUND/coverage", rc == want)] += 1
+            if rc != want:
+                rep.violation(f"C16/COMPLEX_NOT_FOUND/coverage/{T}|{U}", f"a struct tagged \"{U}\" using an enum tagged \"{T}\": exit status {rc}, expected {want} (every version of the user covered = {fulfilled})",
+                              {"type_versions": T, "user_versions": U, "expected_status": want, "status": rc, "log": out[-600:], "input": open(p).read()})
     bad = sum(v for (r, ok), v in results.items() if not ok)
     rep.coverage = {
         "evaluations": runs, "distinct_nontrivial": runs, "generator_runs": runs, "rules_exercised": sorted({r for r, _ in results}), "sites_available": {k: len(v) for k, v in sites.items()},
